@@ -16,7 +16,7 @@ import (
 func init() {
 	register(&Check{
 		ID:   "C12",
-		Rule: "case = (schema IR, spelling): a random struct schema (all id classes, three requiredness words, nested annotations to depth 3, nocopy option, ignored untagged/unexported fields) is rendered into struct tags in one of 10 spellings (canonical frugal; thrift tag with name prefix; both tags with a conflicting thrift tag; scalar annotations omitted; id-only tags; byte for i8; package-qualified struct/enum names; spaces around every token, in frugal and in thrift tags; decimal ids with leading zeros) and built as a fresh Go type, next to the canonically spelled type of the same IR. Oracles: the harness' own tag parser reads the spelled type back to the IR (generator self-check); EncodeObject bytes equal the reference encoder driven by the IR; DecodeObject equals the reference decoder; the spelled and the canonical type produce identical bytes and decode identically; ignored fields are neither written nor touched. Static zoo spellings (Spelling, ThriftOnly, BothTags, Ignoring) are included. distinct = distinct (type shape, spelling); non-trivial = the spelling differs textually from the canonical one in at least one tag",
+		Rule: "case = (schema IR, spelling): a random struct schema (all id classes, three requiredness words, nested annotations to depth 3, nocopy option, ignored untagged/unexported fields) is rendered into struct tags in one of 10 spellings (canonical frugal; thrift tag with name prefix; both tags with a conflicting thrift tag; scalar annotations omitted; id-only tags; byte for i8; package-qualified struct/enum names; spaces around every token, in frugal and in thrift tags; decimal ids with leading zeros; scalars annotated with their Go type name int8/int16/int32/int64/float64) and built as a fresh Go type, next to the canonically spelled type of the same IR. Oracles: the harness' own tag parser reads the spelled type back to the IR (generator self-check); EncodeObject bytes equal the reference encoder driven by the IR; DecodeObject equals the reference decoder; the spelled and the canonical type produce identical bytes and decode identically; ignored fields are neither written nor touched. Static zoo spellings (Spelling, ThriftOnly, BothTags, Ignoring) are included. distinct = distinct (type shape, spelling); non-trivial = the spelling differs textually from the canonical one in at least one tag",
 		Plan: func(tier string) []BuildPlan {
 			if tier == "thorough" {
 				return []BuildPlan{{"plain", 800000}, {"checkptr", 160000}}
@@ -27,7 +27,7 @@ func init() {
 	})
 }
 
-var c12Spellings = []string{"canonical", "thrift", "both-conflict", "omit-scalar-annot", "id-only", "byte", "pkg-qualified", "spaces", "thrift-spaces", "zero-padded-id"}
+var c12Spellings = []string{"canonical", "thrift", "both-conflict", "omit-scalar-annot", "id-only", "byte", "pkg-qualified", "spaces", "thrift-spaces", "zero-padded-id", "go-type-name"}
 
 // annot renders a type annotation in the given spelling.
 func annot(r *gen.Rand, t *schema.Type, sp string) string {
@@ -36,6 +36,21 @@ func annot(r *gen.Rand, t *schema.Type, sp string) string {
 			return strings.Repeat(" ", r.Intn(3)) + s + strings.Repeat(" ", r.Intn(3))
 		}
 		return s
+	}
+	if sp == "go-type-name" && t.GoNamed == nil {
+		// a scalar annotated with the name of its own Go type (accepted through the type-name path)
+		switch t.K {
+		case schema.I8:
+			return "int8"
+		case schema.I16:
+			return "int16"
+		case schema.I32:
+			return "int32"
+		case schema.I64:
+			return "int64"
+		case schema.Double:
+			return "float64"
+		}
 	}
 	switch t.K {
 	case schema.I8:
